@@ -311,3 +311,30 @@ package reconciling
 //@ cutsonly
 //@ before elect assert same(arg1, rs) && same(arg2, bs)
 //@ ensures true
+
+// ---------------------------------------------------------------------------------------------
+// style.go / style_reformat.go — how a style and a reformat directive turn into the formats of generated values
+// (property C11): the formats carry exactly the style's properties; a directive does nothing (mode 0), reformats
+// with its own value (explicit preference, mode 1) or with the file's style (auto, mode 2).
+//@ func (*style).dateFormat
+//@ requires s != nil
+//@ ensures result.UseDashes == s.dateUseDashes.value
+//@ func (*style).timeFormat
+//@ requires s != nil
+//@ ensures result.Use24HourClock == s.timeUse24HourClock.value
+//@ func (*style).openRangeFormat
+//@ requires s != nil
+//@ ensures result.UseSpacesAroundDash == s.rangesUseSpacesAroundDash.value && result.AdditionalPlaceholderChars == s.openRangeAdditionalPlaceholderChars.value
+
+//@ func NoReformat
+//@ ensures result.mode == 0
+//@ func ReformatExplicitly
+//@ ensures result.mode == 1 && result.Value == value
+//@ func ReformatAutoStyle
+//@ ensures result.mode == 2
+
+//@ func (ReformatDirective[T]).apply
+//@ requires reformat != nil
+//@ noframe
+//@ before reformat assert (r.mode == 1 && arg0 == r.Value) || (r.mode != 0 && r.mode != 1 && arg0 == autoStyle)
+//@ ensures true
